@@ -177,6 +177,7 @@ def gen_case(rng, tier, g):
                 'sort_buffersize', 'failonerror', 'look_limit', 'see_limit',
                 'display_limit')),
             'L1': rng.randint(60, 150), 'L2': rng.randint(5000, 12000),
+            'fluent': rng.random() < 0.15,
             'consumers': consumers, 'order': order}
 
 
@@ -381,6 +382,7 @@ def _one_length(e, case, total, log, sb, poison):
                 else:
                     hdr_budget[i] += below
     w, views = build(e, stack, None, tempdir=sb.path, tables=tables,
+                     fluent=bool(case.get('fluent')),
                      table_factory=table_factory)
     try:
         # (1) construction reads no data row.  A recipe that consults the
